@@ -103,6 +103,13 @@ claim("C10", "Symbolic raw sibling names go through the real make_safe_names_rou
       "or raises ErrorInvalidPath and nothing else; rendering of solver-chosen item shapes yields one line per leaf; ls_action prints exactly the not-found "
       "message.", ST + "; CrossHair for rendering and the ls action", "DESIGN.md 2/C10")
 
+claim("C17", "Each live line regex is compiled to a z3 formula and shown to match a line with symbolic keyword casing and symbolic blank characters (run lengths "
+      "enumerated) with the canonical line's groups, and lines starting with any other keyword to match none; an AST check shows cuesheet.py touches a line only "
+      "through strip/len/those patterns. The real parse_cue_sheet is then run on solver-chosen canonical sheets (1..3 tracks, TITLE / second INDEX / data track "
+      "presence) with one or two cosmetic lines inserted at every admissible position and with whole-sheet re-casing/re-indenting, and must return the "
+      "canonical meaning; no FILE line / non-ASCII text is rejected and falls through to the binary detectors.",
+      ST + " for the line regexes; CrossHair decision-tree enumeration for whole sheets", "DESIGN.md 2/C17")
+
 _pending = "check not built yet in this session (work in progress; see DESIGN.md section 2 for the planned obligations)"
 for _p in ["C01","C02","C03","C04","C05","C06","C07","C09","C10","C11","C12","C13","C14","C15","C16","C17","C18","C19","C20"]:
     if _p not in CHECKS:
